@@ -11,7 +11,9 @@ get the ids 1, 2, ... in history order (a failed / empty derivation leaves a dea
                   which derived-object factories) that this file evaluates on clean objects / in plain Python.
 
 oracle: hist[k] == fresh[k] for every step (the property text), and in-place writes through every handed-out image /
-timestamp array either raise or leave every later answer unchanged.
+timestamp array either raise or leave every later answer unchanged: every array a query of the history returns (colour
+planes, the full colour image get_image("rgb"), timestamps) is written to right after its answer has been copied, and after
+the history every array of every object is attacked again and all of them are asked once more (cf_alias).
 """
 import copy as _copy
 import json
@@ -42,7 +44,8 @@ RULE = (
     "streams that start before the scan, end early (shorter than the info wave), absent colours, nominal start inside the "
     "preceding sample, unfinished last frame, and TRUNCATED FIRST LINE (every photon stream starts 1..k samples after the "
     "nominal start, k up to the start of the second line; nominal start in the lead-in or in the middle of the first line). "
-    "Queries: start, stop, infowave, pixel_time_seconds, line_time_seconds, get_image(red/green), timestamps, "
+    "Queries: start, stop, infowave, pixel_time_seconds, line_time_seconds, get_image(red/green; the colour scopes: blue; the "
+    "full-colour scopes: rgb), timestamps, "
     "line/frame_timestamp_ranges, shape, duration, num_frames, calibration/pixel-size/pixel-count block. Derivations: copy, "
     "calibrate_to_kbp, time slices, crop_by_distance, downsampled_by (time and position), flip, Scan[frame], Scan[a:b], "
     "Scan[a:b, y, x], crop_by_pixels, and derivations of derived objects. Exhaustive: every history of length <=2 (quick: "
@@ -72,9 +75,18 @@ RULE = (
     "timestamps, line / frame ranges, shape, duration) plus 'ask a, derive, ask b'; random: 120/2500 objects whose streams each end at their own sample "
     "(at least two different ends before the end of the info wave; the third complete, short, equally short or absent; each "
     "starting 0-2 samples before the scan), histories biased to those queries. "
+    "FULL COLOUR IMAGE get_image('rgb') (both tiers): on a normal kymograph, a two-frame scan and the kymograph whose colours "
+    "differ in extent (np.stack raises ValueError, every time), thorough also a truncated-first-line kymograph and a scan "
+    "without green - every history of length <= 2 (+ the kept / sampled length 3) over {rgb, red, blue, shape} that asks rgb, "
+    "'ask a, derive, ask b' for all pairs, the derived-from-derived chains with the question rgb; random: 100/2000 objects of "
+    "every kind (two in five with colours that differ), histories biased to rgb and the planes it is made of. "
     "Every step is compared with a freshly built twin (only the ancestor "
-    "derivations replayed) and with the Lean state machine; after the history every image/timestamp array handed out by a "
-    "confocal object is attacked with five in-place writes. The calibration / pixel-size block copies every value at the "
+    "derivations replayed) and with the Lean state machine. Every array a query of the history hands out (colour plane, full "
+    "colour image, timestamps) is written to in place (+= 1; NumPy refuses on read-only arrays) as soon as its answer has been "
+    "copied, so every later step of the history would show a write that reached cached state; after the history every array "
+    "every object hands out (red, green, blue, rgb, timestamps) is asked and copied, attacked with five in-place writes "
+    "(asked again at once where something was written), and finally all of them are asked again and compared with the "
+    "copies (a write through one array must not show in another array or object). The calibration / pixel-size block copies every value at the "
     "moment it is asked. Non-trivial: >=2 steps with a query after the first step."
 )
 TRUSTED = [
@@ -99,6 +111,8 @@ ASSUMPTIONS = [
     "directly; one-pixel kymographs fall back on a pixel time that needs two rows)",
     "NumPy buffer identity is not modelled: aliasing is checked by in-place write attempts only (confocal images/timestamps, "
     "as the property states); channel .data arrays are writable by design and not attacked",
+    "plotting and exporting (plot, plot_with_force, export_tiff, export_video) are not queries in the sense of the property "
+    "text and are not part of the histories: a cached array that only a plot call modifies is outside this check",
     "scan start/stop/infowave of objects made by Scan.__getitem__ are treated as functions of the derivation path (they are set "
     "from the frame ranges at creation)",
 ]
@@ -213,6 +227,8 @@ def cf_query(o, kind, name):
         return float(o.pixel_time_seconds) * 1e9
     if name == "lineTime":
         return float(o.line_time_seconds) * 1e9
+    if name == "image.rgb":
+        return o.get_image("rgb")  # the full colour image: (..., 3)
     if name.startswith("image."):
         return o.get_image(COLOR[name[6:]])
     if name == "ts.mean":
@@ -259,64 +275,85 @@ def cf_derive(o, kind, op):
     raise KeyError(n)
 
 
+ALIAS_GETTERS = (
+    ("image.red", lambda o: o.get_image("red")),
+    ("image.green", lambda o: o.get_image("green")),
+    ("image.blue", lambda o: o.get_image("blue")),
+    ("image.rgb", lambda o: o.get_image("rgb")),
+    ("timestamps", lambda o: o.timestamps),
+)
+
+
+ALIAS_WRITES = (
+    ("setitem", lambda a: a.__setitem__((0,) * a.ndim, a.flat[0] + 5)),
+    ("iadd", lambda a: a.__iadd__(3)),
+    ("fill", lambda a: a.fill(7)),
+    ("copyto", lambda a: np.copyto(a, 11)),
+    ("put", lambda a: a.put(0, 13)),
+)
+
+
 def cf_alias(objs, kind):
-    """in-place write attempts through every image / timestamp array a confocal object hands out.  After every attempt that
-    wrote (or that failed on a writable array) the object is asked again; attempts that NumPy refuses on a read-only array
-    write nothing, so for them the object is asked again once, after the last attempt."""
+    """in-place write attempts through every image / timestamp array a confocal object hands out: every colour plane, the
+    full colour image and the timestamps.
+      1. every array of every object of the history is asked once; the handle is kept and its content copied (the snapshot);
+      2. five kinds of in-place write are attempted through every handle.  NumPy refuses them on a read-only array (nothing
+         is written); where an attempt wrote something (or failed in another way on a writable array) the object is asked
+         again right away and must answer what it answered before;
+      3. after the last attempt EVERY array of EVERY object is asked once more and compared with the snapshot: a write
+         through one handed-out array must not show in any other one either (another colour, the full colour image made of
+         the colour planes, the object it was derived from, an object derived from it)."""
     problems = []
+    handles = []
     for idx, o in enumerate(objs):
         if o is None:
             continue
-        for label, getter in (
-            ("image.red", lambda: o.get_image("red")),
-            ("image.green", lambda: o.get_image("green")),
-            ("timestamps", lambda: o.timestamps),
-        ):
+        for label, get in ALIAS_GETTERS:
             try:
-                a = getter()
+                a = get(o)
             except Exception:
                 continue
-            if not isinstance(a, np.ndarray) or a.size == 0:
+            if isinstance(a, np.ndarray) and a.size:
+                handles.append((idx, label, get, a, a.copy()))
+
+    def differs(again, before):
+        return not isinstance(again, np.ndarray) or again.shape != before.shape or not np.array_equal(again, before)
+
+    for idx, label, get, a, before in handles:
+        outcomes = []
+        for wname, write in ALIAS_WRITES:
+            read_only = not a.flags.writeable
+            try:
+                write(a)
+                outcomes.append(wname + ":written")
+            except (ValueError, TypeError) as e:
+                if not read_only:
+                    outcomes.append(wname + ":refused-on-a-writable-array")
+            except Exception as e:  # any other refusal is still a refusal
+                outcomes.append(wname + ":refused:" + type(e).__name__)
+        if not outcomes:
+            continue  # every attempt refused on a read-only array: nothing was written (asked again in step 3)
+        try:
+            again = get(objs[idx])
+        except Exception as e:
+            problems.append(f"object {idx} {label}: query raised {errname(e)} after in-place write attempts ({', '.join(outcomes)})")
+            continue
+        if differs(again, before):
+            problems.append(
+                f"object {idx} {label}: in-place writes on the handed-out array ({', '.join(outcomes)}) changed what the object reports"
+            )
+    if not problems:
+        for idx, label, get, a, before in handles:
+            try:
+                again = get(objs[idx])
+            except Exception as e:
+                problems.append(f"object {idx} {label}: query raised {errname(e)} after the write attempts on the handed-out arrays")
                 continue
-            before = a.copy()
-
-            def changed(wname, outcome):
-                try:
-                    again = getter()
-                except Exception as e:
-                    problems.append(f"object {idx} {label}: query raised {errname(e)} after a {wname} attempt")
-                    return True
-                if again.shape != before.shape or not np.array_equal(again, before):
-                    problems.append(
-                        f"object {idx} {label}: in-place {wname} on the handed-out array ({outcome}) changed what the object reports"
-                    )
-                    return True
-                return False
-
-            pending = None
-            for wname, write in (
-                ("setitem", lambda a: a.__setitem__((0,) * a.ndim, a.flat[0] + 5)),
-                ("iadd", lambda a: a.__iadd__(3)),
-                ("fill", lambda a: a.fill(7)),
-                ("copyto", lambda a: np.copyto(a, 11)),
-                ("put", lambda a: a.put(0, 13)),
-            ):
-                read_only = not a.flags.writeable
-                try:
-                    write(a)
-                    outcome = "written"
-                except (ValueError, TypeError):
-                    outcome = "refused"
-                except Exception as e:  # any other refusal is still a refusal
-                    outcome = "refused:" + type(e).__name__
-                if outcome == "refused" and read_only:
-                    pending = (wname, outcome)
-                    continue
-                pending = None
-                if changed(wname, outcome):
-                    break
-            if pending:
-                changed(*pending)
+            if differs(again, before):
+                problems.append(
+                    f"object {idx} {label}: answers differently after the in-place write attempts on the OTHER arrays handed out "
+                    f"(other colours / full colour image / timestamps / other objects of the history)"
+                )
     return problems
 
 
@@ -600,6 +637,16 @@ def do_derive(case, o, op, objs):
     return family(case["family"]).derive(o, op, objs)
 
 
+def scribble(a):
+    """what a caller may do with an image / timestamp array a confocal object handed out: write into it, in place.  NumPy
+    refuses on a read-only array; where it does not refuse, no later answer of the history (this object, the objects it was
+    derived from, objects derived from it afterwards) may show the write - the twins are never written to."""
+    try:
+        np.add(a, 1, out=a)
+    except (ValueError, TypeError):
+        pass
+
+
 def run_op(case, objs, op):
     """one step on the object table `objs` (appends for derivations); returns the canonical answer"""
     tgt = objs[op[1]] if op[1] < len(objs) else None
@@ -607,9 +654,13 @@ def run_op(case, objs, op):
         if tgt is None:
             return "dead"
         try:
-            return val(do_query(case, tgt, op[2]))
+            res = do_query(case, tgt, op[2])
         except Exception as e:
             return {"error": errname(e)}
+        answer = val(res)  # a copy of what was answered
+        if is_confocal(case) and isinstance(res, np.ndarray):
+            scribble(res)
+        return answer
     if tgt is None:
         objs.append(None)
         return "dead"
@@ -978,6 +1029,15 @@ class Evaluator:
                     return [int(r[0][0]), int(r[-1][-1])]
                 raise Err(self.errors_only(t))
             q = op[2]
+            if q == "image.rgb":
+                # pair(pair(red, green), blue): the three memoised planes, stacked along a new last axis (np.stack refuses
+                # planes of different shapes: photon streams that end at different samples)
+                if not (isinstance(t, tuple) and t[0] == "pair" and isinstance(t[1][0], tuple) and t[1][0][0] == "pair"):
+                    raise Err(self.errors_only(t))
+                planes = [self.raw(t[1][0][1][0]), self.raw(t[1][0][1][1]), self.raw(t[1][1])]
+                if len({p.shape for p in planes}) != 1:
+                    raise Err("ValueError")
+                return val(np.concatenate([p[..., None] for p in planes], axis=-1))
             if q in ("start", "stop", "infowave", "pixelTime", "lineTime", "numFrames") or q.startswith("image.") or q == "ts.mean":
                 return val(self.raw(t))
             if q == "shape":
@@ -1263,6 +1323,11 @@ class Tracker:
         that has data) and what is computed from them"""
         return ["image.r", "image.g", "image.b", "ts.mean", "lineRanges", "shape"] + (["duration"] if self.fam == "kymo" else [])
 
+    def full_colour_queries(self):
+        """the full colour image get_image("rgb") (a stack of the three colour planes, made on every call) next to the planes
+        it is made of and the shape"""
+        return ["image.rgb", "image.rgb", "image.rgb", "image.r", "image.g", "image.b", "shape"]
+
     def derive(self, rng, i, views=False):
         """a (mostly valid) derivation of object i; registers the new object.  views: mostly derivations whose factories
         are closures over object i (crop, downsample, flip), with position factors of 2 and 3"""
@@ -1393,14 +1458,14 @@ def random_history_derived(rng, fam, obj, length):
     return hist
 
 
-def random_history_chain(rng, fam, obj, length):
+def random_history_chain(rng, fam, obj, length, qs=None):
     """objects derived from DERIVED objects: a chain of 2-3 derivations, each of the newest object (kymographs: mostly crop /
     downsample / flip, whose factories close over the object they were made from), then queries that mostly REPEAT one
     question (often the calibration / pixel-size block) - on the newest object, on one of the objects it was derived from,
     on the source - and now and then a sibling derived from an object that has been asked already"""
     tr = Tracker(fam, obj)
-    qs = tr.queries()
-    focus = rng.choice(["static.0", "static.0", "static.0"] + qs)  # the question this history keeps coming back to
+    focus = rng.choice(qs if qs else ["static.0", "static.0", "static.0"] + tr.queries())  # the question this history keeps coming back to
+    qs = qs or tr.queries()
     hist, asked = [], False
     for _ in range(min(rng.randint(2, 3), max(1, length - 2))):
         hist.append(tr.derive(rng, len(tr.objs) - 1, views=True))
@@ -1968,6 +2033,46 @@ def cases(tier, rng):
         hist = (random_history(sub, fam, obj, sub.randint(2, 8), 0.25, qs=qs) if sub.chance(0.6)
                 else random_history_chain(sub, fam, obj, sub.randint(4, 8)))
         yield {"stream": "random-colours", "family": fam, "obj": obj, "hist": hist, "subseed": i, "mode": mode}
+    # ---- the FULL COLOUR image get_image("rgb") (placed and forked after everything above).  Small scope: on a normal
+    # kymograph, a two-frame scan and the kymograph whose colours differ in extent (np.stack raises: the error must repeat),
+    # thorough also a truncated-first-line kymograph and a scan with an absent colour - every history of length <= 2 (+ the
+    # kept / sampled length 3) over {rgb, red, blue, shape}, 'ask a, derive, ask b' for all pairs, and the derived-from-derived
+    # chains with the question rgb.
+    rgb_scope = [("kymo", kymo_obj(2, 3, 2, 1, 2, salt=1)), ("scan", scan_obj(2, 2, 2, 1, 1, 1, 2, 0, 1, salt=2)),
+                 ("kymo", kymo_obj(2, 4, 1, 1, 1, short={"red": 7, "green": 10}))]
+    if not quick:
+        rgb_scope += [("kymo", kymo_obj(2, 4, 2, 0, 2, drop=1, late=2)),
+                      ("scan", scan_obj(2, 2, 2, 1, 0, 1, 1, 1, 0, absent=("green",), early={"red": 1, "blue": 2}))]
+    r10 = rng.fork("rgb-scope")
+    rq = ["image.rgb", "image.r", "image.b", "shape"]
+    for fam, obj in rgb_scope:
+        derivs = (KYMO_DERIVS if quick else KYMO_DERIVS_MORE) if fam == "kymo" else SCAN_DERIVS
+        seen = set()
+        for h in exhaustive_histories(fam, obj, rq, derivs, 3):
+            if not any(o[0] == "q" and o[2] == "image.rgb" for o in h):
+                continue  # asked elsewhere
+            # (derive, derive, ask) is the subject of the chains below
+            if len(h) <= 2 or (keep_len3(h) and not (quick and h[0][0] == "d" and h[1][0] == "d")) or r10.chance(0.02 if quick else 0.3):
+                seen.add(json.dumps(h))
+                yield {"stream": "small-scope-rgb", "family": fam, "obj": obj, "hist": h}
+        for h in derive_after_query_histories(fam, obj, rq, slice_pairs=not quick):
+            if json.dumps(h) not in seen and any(o[0] == "q" and o[2] == "image.rgb" for o in h):
+                seen.add(json.dumps(h))
+                yield {"stream": "small-scope-rgb", "family": fam, "obj": obj, "hist": h}
+    for fam, obj, _ in chain_scope:
+        for h in chain_histories(fam, obj, ["image.rgb"]):
+            yield {"stream": "small-scope-rgb", "family": fam, "obj": obj, "hist": h}
+    # random: every kind of object (two in five with colours that differ), histories biased to the full colour image and
+    # the planes it is made of - free histories, source-first-then-derived, and chains that keep asking one of them
+    r11 = rng.fork("c19-random-rgb")
+    for i in range(100 if quick else 2000):
+        sub = r11.fork(i)
+        fam, obj, mode = random_confocal_colours(sub) if sub.chance(0.4) else random_confocal(sub)
+        tr = Tracker(fam, obj)
+        qs = tr.full_colour_queries() * 2 + tr.queries()
+        hist = (random_history(sub, fam, obj, sub.randint(2, 8), 0.3, qs=qs) if sub.chance(0.6)
+                else random_history_chain(sub, fam, obj, sub.randint(4, 8), qs=tr.full_colour_queries() + ["static.0"]))
+        yield {"stream": "random-rgb", "family": fam, "obj": obj, "hist": hist, "subseed": i, "mode": mode}
 
 
 def fix_second_ref(o, nd, shift):
